@@ -94,6 +94,25 @@ def convExprs (avail : List (Tag × SqlExpr)) : List Expr → Except Err (List S
       | .ok xs => .ok (x :: xs)
 end
 
+/-- SQL for membership in the ascending range `start, start+step, ... ≤ stopIncl` (`step > 0`). -/
+def ascRange (x : SqlExpr) (start stopIncl step : Int) : SqlPred :=
+  if start == stopIncl then .eqLit x start
+  else if step != 1 then
+    if start < 0 then
+      .and [.between x start stopIncl, .modEq (.fn .sub [x, .lit start]) step 0]
+    else .and [.between x start stopIncl, .modEq x step (start.fmod step)]
+  else .between x start stopIncl
+
+/-- The `range` branch of `convert_predicate` for `item in range(start0, stop0, step0)`. -/
+def convRange (x : SqlExpr) (start0 stop0 step0 : Int) : SqlPred :=
+  -- `if not value: return literal(False)`
+  if (step0 > 0 && start0 ≥ stop0) || (step0 < 0 && start0 ≤ stop0) || step0 == 0 then .lit false
+  else if step0 < 0 then
+    -- `value = value[::-1]`: the same members, ascending
+    let n := (start0 - stop0 - 1) / (-step0) + 1
+    ascRange x (start0 + (n - 1) * step0) (start0 - step0 - 1) (-step0)
+  else ascRange x start0 (stop0 - 1) step0
+
 mutual
 /-- `convert_predicate(predicate, columns_available)`. -/
 def convPred (avail : List (Tag × SqlExpr)) : Pred → Except Err SqlPred
@@ -125,23 +144,7 @@ def convPred (avail : List (Tag × SqlExpr)) : Pred → Except Err SqlPred
     | .error e => .error e
     | .ok x =>
       match c with
-      | .range start0 stop0 step0 =>
-        -- `if not value: return literal(False)`
-        if (step0 > 0 && start0 ≥ stop0) || (step0 < 0 && start0 ≤ stop0) || step0 == 0 then .ok (.lit false)
-        else
-          -- `if value.step < 0: value = value[::-1]` (same members, ascending)
-          let (start, stop, step) : Int × Int × Int :=
-            if step0 < 0 then
-              let n := (start0 - stop0 - 1) / (-step0) + 1
-              (start0 + (n - 1) * step0, start0 - step0, -step0)
-            else (start0, stop0, step0)
-          let stopIncl := stop - 1
-          if start == stopIncl then .ok (.eqLit x start)
-          else if step != 1 then
-            if start < 0 then
-              .ok (.and [.between x start stopIncl, .modEq (.fn .sub [x, .lit start]) step 0])
-            else .ok (.and [.between x start stopIncl, .modEq x step (start.fmod step)])
-          else .ok (.between x start stopIncl)
+      | .range start0 stop0 step0 => .ok (convRange x start0 stop0 step0)
       | .seq items =>
         match convExprs avail items with
         | .error e => .error e
